@@ -710,11 +710,149 @@ class SymStr:
             return mkbytes(self.items)
         raise Unsupported("SymStr.encode(%s)" % enc)
 
-    def startswith(self, p):
-        return len(p) <= len(self) and bool(self[:len(p)] == p)
+    def startswith(self, p, start=0):
+        if isinstance(p, tuple):
+            return any(self.startswith(x, start) for x in p)
+        return start + len(p) <= len(self) and bool(self[start:start + len(p)] == p)
 
-    def strip(self):
-        raise Unsupported("SymStr.strip")
+    def endswith(self, p):
+        if isinstance(p, tuple):
+            return any(self.endswith(x) for x in p)
+        return len(p) <= len(self) and bool(self[len(self) - len(p):] == p)
+
+    # ---- text API subset: every decision about a symbolic character is a solver-checked fork ---------
+    _WS = (9, 10, 11, 12, 13, 28, 29, 30, 31, 32, 0x85, 0xA0)
+    _LINEBREAKS = (10, 11, 12, 13, 28, 29, 30, 0x85, 0x2028, 0x2029)
+
+    @staticmethod
+    def _is_one_of(x, values):
+        if isinstance(x, int):
+            return x in values
+        return bool(_any_eq(x, values))
+
+    def strip(self, chars=None):
+        ws = self._WS if chars is None else [ord(ch) for ch in chars]
+        items = list(self.items)
+        while items and self._is_one_of(items[-1], ws):
+            items.pop()
+        while items and self._is_one_of(items[0], ws):
+            items.pop(0)
+        return mkstr(items)
+
+    def lstrip(self, chars=None):
+        ws = self._WS if chars is None else [ord(ch) for ch in chars]
+        items = list(self.items)
+        while items and self._is_one_of(items[0], ws):
+            items.pop(0)
+        return mkstr(items)
+
+    def rstrip(self, chars=None):
+        ws = self._WS if chars is None else [ord(ch) for ch in chars]
+        items = list(self.items)
+        while items and self._is_one_of(items[-1], ws):
+            items.pop()
+        return mkstr(items)
+
+    def lower(self):
+        out = []
+        for it in self.items:
+            if isinstance(it, int):
+                out.append(ord(chr(it).lower()) if len(chr(it).lower()) == 1 else it)
+            else:
+                if it.hi > 0xFF:
+                    raise Unsupported("SymStr.lower beyond latin-1")
+                up = ((it >= 65) & (it <= 90)) | ((it >= 0xC0) & (it <= 0xDE) & (it != 0xD7))
+                out.append(ite(up, it + 32, it))
+        return mkstr(out)
+
+    def upper(self):
+        raise Unsupported("SymStr.upper")
+
+    def find(self, sub, start=0, end=None):
+        end = len(self.items) if end is None else min(end, len(self.items))
+        n = len(sub)
+        for p in range(start, end - n + 1):
+            if bool(self[p:p + n] == sub):
+                return p
+        return -1
+
+    def rfind(self, sub):
+        n = len(sub)
+        for p in range(len(self.items) - n, -1, -1):
+            if bool(self[p:p + n] == sub):
+                return p
+        return -1
+
+    def __contains__(self, sub):
+        return self.find(sub) >= 0
+
+    def count(self, sub):
+        n, k, p = len(sub), 0, 0
+        while True:
+            q = self.find(sub, p)
+            if q < 0:
+                return k
+            k += 1
+            p = q + max(n, 1)
+
+    def split(self, sep=None, maxsplit=-1):
+        if sep is None:
+            # runs of whitespace
+            out, cur = [], []
+            for it in self.items:
+                if self._is_one_of(it, self._WS):
+                    if cur:
+                        out.append(mkstr(cur))
+                        cur = []
+                else:
+                    cur.append(it)
+            if cur:
+                out.append(mkstr(cur))
+            if maxsplit >= 0 and len(out) > maxsplit + 1:
+                raise Unsupported("SymStr.split(None, maxsplit)")
+            return out
+        out, cur, n = [], 0, 0
+        while maxsplit < 0 or n < maxsplit:
+            p = self.find(sep, cur)
+            if p < 0:
+                break
+            out.append(self[cur:p])
+            cur = p + len(sep)
+            n += 1
+        out.append(self[cur:])
+        return out
+
+    def rsplit(self, sep=None, maxsplit=-1):
+        if sep is None or maxsplit != 1:
+            raise Unsupported("SymStr.rsplit")
+        p = self.rfind(sep)
+        if p < 0:
+            return [self]
+        return [self[:p], self[p + len(sep):]]
+
+    def splitlines(self, keepends=False):
+        if keepends:
+            raise Unsupported("splitlines(keepends)")
+        out, cur = [], []
+        items = self.items
+        i, n = 0, len(items)
+        while i < n:
+            it = items[i]
+            if self._is_one_of(it, self._LINEBREAKS):
+                out.append(mkstr(cur))
+                cur = []
+                # \r\n counts as one break
+                if self._is_one_of(it, (13,)) and i + 1 < n and self._is_one_of(items[i + 1], (10,)):
+                    i += 1
+            else:
+                cur.append(it)
+            i += 1
+        if cur:
+            out.append(mkstr(cur))
+        return out
+
+    def isdigit(self):
+        return len(self.items) > 0 and all(self._is_one_of(it, tuple(range(48, 58))) if isinstance(it, int) else bool((it >= 48) & (it <= 57)) for it in self.items)
 
     def __format__(self, spec):
         CTX.opaque_fmt += 1
